@@ -64,6 +64,8 @@ def gen(ctx):
     if tick is None or any(v is None for v in consts.values()) or not arms:
         ctx.gen_fail("Proc", "could not extract Run's select arms / cleanup thresholds: tick=%s consts=%s arms=%s" % (tick, consts, arms))
         return None
+    # the order of the arms of a select has no meaning in Go: reported in the canonical order (ctx.Done first, then by channel)
+    arms = sorted(arms, key=lambda a: (a[0] != "ctx.Done()", {"p.setC": 0, "p.lockC": 1, "p.injectC": 2, "p.obsvC": 3, "p.signedInC": 4, "p.cleanup.C": 5}.get(a[0], 9), a[0]))
     out = "namespace Whv.Gen.Proc\n\n"
     out += "/-- (channel, handler) for every arm of the select in Processor.Run, in source order -/\n"
     out += "def runArms : List (String × String) := [" + ", ".join('("%s", "%s")' % a for a in arms) + "]\n"
